@@ -69,8 +69,10 @@ inductive RT where
   deriving Repr, Inhabited
 
 namespace RT
-@[simp] def val : RT → Int | node v _ => v
-@[simp] def kids : RT → List RT | node _ k => k
+def val : RT → Int | node v _ => v
+def kids : RT → List RT | node _ k => k
+@[simp] theorem val_node (v ks) : (node v ks).val = v := rfl
+@[simp] theorem kids_node (v ks) : (node v ks).kids = ks := rfl
 
 def getT : Path → RT → Option RT
   | [], t => some t
